@@ -41,6 +41,9 @@ Rand ==
             op \in {"sptenrand", "from_function_sparse"}, r \in Reqs(Prod(s)), sd \in 0..2} :
          s \in {<<2, 2>>, <<2, 3>>, <<3, 1, 2>>, <<2, 2, 2>>, <<4, 5>>}}
   \cup {St("tenrand", [shape |-> s, seed |-> sd]) : s \in ShapesG, sd \in 0..2}
+  \* densities of index spaces with 2^60 .. 2^64 cells (the count is a small power of two)
+  \cup {St("sptenrand_pow2", [widths |-> wd[1], dexp |-> wd[2], seed |-> sd]) :
+          wd \in {<<<<22, 21, 21>>, 58>>, <<<<22, 21, 21>>, 60>>, <<<<16, 16, 16, 16>>, 59>>, <<<<20, 20, 20>>, 55>>, <<<<21, 21, 21>>, 60>>}, sd \in 0..1}
 
 Init == /\ stim \in (CASE Part = "det" -> Det [] Part = "agg" -> AggStimuli [] Part = "rand" -> Rand)
         /\ last = "none" /\ done = FALSE
